@@ -24,6 +24,8 @@ def main(argv=None):
     except ValueError:
         seed = 0
     ctx = Ctx(prop, a.tier, LEVELS.get(prop, "other"), seed)
+    from . import paths as _paths
+    _paths.DEEP[0] = a.tier == "thorough"      # the --tier option wins over the environment
     replay = None
     if a.replay:
         try:
